@@ -94,6 +94,9 @@ class TextDecoder:
                     return ("bool", table[op])
             return UNK
         if tag == "phi":
+            env = getattr(self, "_env", {}).get(id(body))
+            if env is not None and e[1] in env:
+                return env[e[1]]
             vals = {self.ev(body, a, args, depth + 1) for a in e[3]} if len(e) > 3 else set()
             return vals.pop() if len(vals) == 1 else UNK
         if tag == "call":
@@ -185,48 +188,63 @@ class TextDecoder:
 
     # ------------------------------------------------------------ control flow
     def run(self, body, args, depth=0):
-        """Set of values `body` can return for the class representative."""
+        """Set of values `body` can return for the class representative.  The walk is path-sensitive: it remembers which
+        definition of a multiply-defined local (`let is_false = a || b || c`, a `mut` flag) the current path executed."""
         rdefs = {}
         for (bb, e, raw) in body.return_defs():
             rdefs.setdefault(bb, []).append(e)
+        multi = {l: ds for l, ds in body.defs().items() if len(ds) > 1}
+        by_block = {}
+        for l, ds in multi.items():
+            for d in ds:
+                by_block.setdefault(d[1], []).append((l, d))
         out = set()
-        seen, todo = set(), [0]
-        while todo:
-            x = todo.pop()
-            if x in seen:
+        if not hasattr(self, "_env"):
+            self._env = {}
+        seen = set()
+        todo = [(0, ())]
+        steps = 0
+        while todo and steps < 4000:
+            steps += 1
+            x, envt = todo.pop()
+            key = (x, envt)
+            if key in seen:
                 continue
-            seen.add(x)
+            seen.add(key)
+            env = dict(envt)
+            self._env[id(body)] = env
+            for (l, d) in by_block.get(x, []):
+                env[l] = self.ev(body, body._def_expr(d, frozenset({l}), 1), args, depth + 1)
+            self._env[id(body)] = env
             if x in rdefs:
                 for e in rdefs[x]:
                     out.add(self.ev(body, e, args, depth))
+            envt2 = tuple(sorted(env.items(), key=lambda kv: kv[0]))
             t = body.blocks[x]["term"]
-            if t["k"] != "switch":
+            si = body.switch_info(x) if t["k"] == "switch" else None
+            if si is None:
                 for (nx, lab) in body.succ(x):
-                    todo.append(nx)
-                continue
-            si = body.switch_info(x)
-            if not si:
-                for (nx, lab) in body.succ(x):
-                    todo.append(nx)
+                    todo.append((nx, envt2))
                 continue
             v = self.ev(body, si["cond"], args, depth)
             took = False
             if si["kind"] == "bool" and v[0] == "bool":
                 for (nx, lab, m) in si["edges"]:
                     if m is v[1]:
-                        todo.append(nx)
+                        todo.append((nx, envt2))
                         took = True
             elif si["kind"] == "variant" and v[0] == "adt":
                 for (nx, lab, m) in si["edges"]:
                     ms = set(m) if isinstance(m, tuple) else {m}
                     if v[2] in ms:
-                        todo.append(nx)
+                        todo.append((nx, envt2))
                         took = True
             if not took:
                 if v == UNK or v[0] not in ("bool", "adt"):
                     self.unknown.append(fmt(strip(si["cond"]))[:70])
                 for (nx, lab, m) in si["edges"]:
-                    todo.append(nx)
+                    todo.append((nx, envt2))
+        self._env.pop(id(body), None)
         return out
 
 
